@@ -28,6 +28,7 @@ use crate::parse::parser::Parser;
 use crate::parse::session::ParseSess;
 use crate::rewrite::{RewriteContext, RewriteResult};
 use crate::shape::{Indent, Shape};
+use crate::spanned::Spanned;
 use crate::visitor::FmtVisitor;
 use crate::{FormatReport, Input, utils};
 
@@ -226,7 +227,7 @@ impl<'a, 'c> Walk<'a, 'c> {
         } else {
             pat.clone()
         };
-        let arrow_span = utils::mk_sp(arm.pat.span.hi(), body.span.lo());
+        let arrow_span = utils::mk_sp(arm.pat.span.hi(), body.span().lo());
         let p = crate::matches::verif_local_braces::probe_body(
             context,
             body,
